@@ -32,7 +32,9 @@ Matches(x, o) ==
   /\ x.up = o.up /\ x.drop = o.drop
   /\ x.nclose = o.nclose /\ x.pings = o.pings /\ x.ndata = o.ndata /\ x.npong = o.npong
   /\ Closes(x) = o.closes
-  /\ x.tOpen = o.tOpen /\ x.tClose = o.tClose /\ x.tDrop = o.tDrop /\ x.tPs = o.tPs /\ x.tPt = o.tPt
+  \* (which timers are still pending once the connection is closed is nobody's business - they must have no effect, and that
+  \* is judged on everything else after each tick)
+  /\ x.st = "CLOSED" \/ (x.tOpen = o.tOpen /\ x.tClose = o.tClose /\ x.tDrop = o.tDrop /\ x.tPs = o.tPs /\ x.tPt = o.tPt)
   /\ x.pend = o.pend
   /\ x.dataAfterClose = o.dac /\ x.lateWrite = o.late      \* judged on the order of frames in the transport's byte stream
   /\ ~o.lated                                               \* no message / ping / pong callback after the close notification
